@@ -126,4 +126,13 @@ REGISTRY = {
         "all outcome branches = circuit semantics), Qasm / JsonRoundTrip (registers, expanded per-wire sequences), "
         "attributes agree with wires, CompiledSame, Deterministic export.",
         "", "DESIGN.md 6/C14"),
+    "C19": (
+        "TLA+ model of the generation loop over a heap of circuit objects model-checked (copies vs references); real "
+        "solver runs recorded per generation and trace-validated, with twin runs for reproducibility",
+        "MC_Evo: all behaviours of 2 members x 2 hall-of-fame slots x 2-3 generations with in-place mutation, insertion "
+        "rule and optional selection: HofSorted, HofHonest, HofPrivate, BestMonotone. Real evolutionary / hybrid runs "
+        "(both compilers, selection / adaptive on-off, hall-of-fame sizes): same clauses with every stored circuit "
+        "re-scored by a fresh compiler, HofFromKnown, ResultIsBest, LogsMonotone, ReproducibleInProcess and "
+        "ReproducibleAcrossProcesses (fresh interpreters with other hash seeds).",
+        "", "DESIGN.md 6/C19"),
 }
